@@ -99,10 +99,7 @@ func genCase(t *rapid.T) Case {
 				specBudget--
 				doc, info := gen.Spec(t, gen.SpecOpts{MaxPaths: 2})
 				if rapid.Bool().Draw(t, "breakdoc") {
-					name := gen.PickUniform(t, gen.RuleEdits, "docedit")
-					if name != "circularAncestry" {
-						gen.ApplyRuleEdit(t, name, doc, info)
-					}
+					gen.ApplyRuleEdit(t, gen.PickUniform(t, gen.StableRuleEdits(), "docedit"), doc, info)
 				}
 				op.Doc = gen.Text(doc)
 				op.Continue = rapid.Bool().Draw(t, "continue")
